@@ -60,11 +60,18 @@ DELAYS = [0, 0, 0.001, 0.05, 0.1, 0.35, 0.35, 2, 2, 3600]
 DEVICES = [dict(label='A', group='G', location='P')]
 
 
+START = [1000.0]        # virtual second of the day at which a scenario begins
+
+
 def gen_case(rng):
     tick = rng.choice([0.01, 0.1, 0.1, 1])
     use_tod = rng.random() < 0.25
+    START[0] = 1000.0
     if use_tod:
         tick = 1
+        if rng.random() < 0.4:
+            # shortly before the full hour: hour and minute change together
+            START[0] = 3540.0 + rng.randint(0, 45)
     raw = rng.random() < 0.2
     stmts = []
     expected = []        # ('pf', seconds) | ('wu', pattern)
@@ -86,6 +93,10 @@ def gen_case(rng):
             raw = mode == 'raw'
         if k == tod_at:
             pat = rng.choice(['0:17', '0:18', '0:1*', '*:*8', '0:2*', '*:19'])
+            if START[0] > 3000:
+                pat = rng.choice(['1:00', '1:0*', '*:00', '0:00 or 1:02',
+                                  '1:01', '2:00 or 1:01', '0:01 or 1:03',
+                                  '*:*1', '1:*', '0:0* or 1:02'])
             stmts.append('time at {} on all'.format(pat))
             expected.append(('wu', pat))
             current = None
@@ -123,11 +134,12 @@ COMPANIONS = ['time 0.07 repeat 6 begin on "A" end',
 
 
 def run_case(seed, script, tick, policy, depth, max_steps=200000, runs=1,
-             tick_as_text=False, companion=None):
+             tick_as_text=False, companion=None, start=1000.0):
     env.THREAD_EXCEPTIONS.clear()
     env.MACHINE_STOPS.clear()
     events = []
-    s = sched.begin(seed, policy=policy, depth=depth, max_steps=max_steps)
+    s = sched.begin(seed, policy=policy, depth=depth, max_steps=max_steps,
+                    start=start)
     outcome = {'deadlock': None}
     try:
         vsys.configure(DEVICES, tick, tick_as_text=tick_as_text)
@@ -343,12 +355,15 @@ def run_shard(ctx):
             ctx.count('scenarios_with_companion_job')
         if tick_as_text:
             ctx.count('scenarios_with_tick_given_as_text')
+        start = START[0]
+        if start > 3000:
+            ctx.count('scenarios_across_the_full_hour')
         out = run_case(seed, script, tick, policy, depth, budget, runs,
-                       tick_as_text, companion)
+                       tick_as_text, companion, start)
         replay = {'script': script, 'tick': tick, 'policy': policy,
                   'depth': depth, 'seed': seed, 'expected': expected,
                   'runs': runs, 'tick_as_text': tick_as_text,
-                  'companion': companion}
+                  'companion': companion, 'start': start}
         ok = check_rules(ctx, out, expected, replay, script)
         ctx.case(sig(out['schedule']), nontrivial=bool(out.get('waited')))
         ctx.count('scheduler_steps', out['steps'])
@@ -393,7 +408,7 @@ def replay(doc):
     ctx = Ctx('C10', 'quick', 0, 0, 1)
     out = run_case(r['seed'], r['script'], r['tick'], r['policy'], r['depth'],
                    2000000, r.get('runs', 1), r.get('tick_as_text', False),
-                   r.get('companion'))
+                   r.get('companion'), r.get('start', 1000.0))
     for e in out['events'][:200]:
         print(e)
     check_rules(ctx, out, [tuple(x) for x in r['expected']], r, r['script'])
